@@ -207,6 +207,8 @@ def declare(spec, cfg, poly=False, ocp=None, stage=None, with_method=True, paren
     def mx(e):
         if isinstance(e, (list, tuple)):
             return ca.vcat([mx(x) for x in e])
+        if isinstance(e, E) and e.op == 'xg':
+            return b.xs[e.a[0]]          # a whole declared (vector/matrix valued) state
         if not isinstance(e, E):
             e = E('c', Fraction(e))
         return ca.MX(ev(e, leaf, dom, wrap))
